@@ -441,6 +441,14 @@ func (p *proxyConn) writeResponse(res *http.Response) error {
 		}
 	}
 
+	// HTTP/1.0 clients cannot decode chunked transfer coding, delimit the body by closing the connection.
+	unchunked := false
+	if !req.ProtoAtLeast(1, 1) && req.Method != http.MethodConnect && res.ContentLength < 0 && !isHeaderOnlySpec(res) {
+		unchunked = chunkedEncoding(res.TransferEncoding)
+		res.TransferEncoding = nil
+		res.Close = true
+	}
+
 	// A body decoded by the transport has neither length nor transfer coding left,
 	// it would be written without any delimiter on a connection that stays open.
 	if res.Uncompressed && res.ContentLength < 0 && len(res.TransferEncoding) == 0 && !isHeaderOnlySpec(res) {
@@ -472,6 +480,9 @@ func (p *proxyConn) writeResponse(res *http.Response) error {
 		case isTextEventStream(res):
 			w := newPatternFlushWriter(p.brw.Writer, p.brw.Writer, sseFlushPattern)
 			err = res.Write(w)
+		case unchunked:
+			// There is no chunk framing to detect, relay every piece of the body as it arrives.
+			err = res.Write(flushAfterWriter{p.brw.Writer, p.brw.Writer})
 		case shouldChunk(res):
 			w := newPatternFlushWriter(p.brw.Writer, p.brw.Writer, chunkFlushPattern)
 			err = res.Write(w)
